@@ -375,6 +375,7 @@ func (s *sink) produce(sem <-chan struct{}) bool {
 		return false
 	}
 
+	verifPoint("sink.produce.prepid")
 	id, epoch, err := s.cl.producerID(ctxFn)
 	if err != nil {
 		var pe *errProducerIDLoadFail
@@ -565,6 +566,7 @@ func (s *sink) produce(sem <-chan struct{}) bool {
 
 	produced = true
 
+	verifPoint("sink.produce.presend")
 	batches := req.batches.sliced()
 	s.doSequenced(req, func(br *broker, resp kmsg.Response, err error) {
 		s.handleReqResp(br, req, resp, err)
@@ -609,6 +611,7 @@ func (s *sink) doSequenced(
 	}
 
 	if first, _ := s.seqResps.push(wait); first {
+		verifPoint("sink.seq.first")
 		go s.handleSeqResps(wait)
 	}
 }
@@ -619,6 +622,7 @@ func (s *sink) handleSeqResps(wait *seqResp) {
 start:
 	<-wait.done
 	wait.promise(wait.br, wait.resp, wait.err)
+	verifPoint("sink.seq.postpromise")
 
 	wait, more, _ = s.seqResps.dropPeek()
 	if more {
